@@ -99,7 +99,10 @@ class Variable(FortranObj):
     def get_type_obj(self, obj_tree):
         if self.link_obj is not None:
             return self.link_obj.get_type_obj(obj_tree)
-        if (self.type_obj is None) and (self.parent is not None):
+        # Resolved on every call: the type may be declared in another file that
+        # has been re-parsed since the last query
+        type_obj = None
+        if self.parent is not None:
             type_name = get_paren_substring(self.get_desc(no_link=True))
             if type_name is not None:
                 search_scope = self.parent
@@ -108,9 +111,7 @@ class Variable(FortranObj):
                 if search_scope is not None:
                     type_name = type_name.strip().lower()
                     type_obj = find_in_scope(search_scope, type_name, obj_tree)
-                    if type_obj is not None:
-                        self.type_obj = type_obj
-        return self.type_obj
+        return type_obj
 
     # XXX: unused delete or use for associate blocks
     def set_dim(self, dim_str):
